@@ -226,16 +226,6 @@ theorem converge_partial_client_flight (C : Crypto) (L : Loc) (e : Ep) (k : Keys
   simp only [hk, Bool.false_eq_true, if_false, hv, hd]
   refine ⟨_, _, _, rfl, rfl, rfl, ?_, rfl, rfl, rfl, ?_, rfl⟩ <;> simp [clientFinalFlight, emitMsg, hsRecord, ccsRecord]
 
-/-- converge_partial (3): a server (in any state, in particular Connected) that receives the client's
-Finished again — a duplicate `message_seq`, in a record that authenticated — re-sends its last flight
-(ChangeCipherSpec + Finished once it has completed), and nothing else changes. -/
-theorem converge_partial_server_resends (C : Crypto) (L : Loc) (e : Ep) (m : HsMsg) (fl : List WRec)
-    (hs : e.isClient = false) (ht : m.typ = dtlsHtFinished) (hdup : m.msgSeq < e.ctx.recvSeq)
-    (hfl : e.ctx.lastFlight = some fl) :
-    procMsg C L e true m = ok e (sends fl) := by
-  unfold procMsg
-  simp [hdup, hs, ht, hfl]
-
 /-- converge_partial (4a'): a fragment with offset 0 *restarts* reassembly whatever the buffer held —
 also for the same `message_seq` (a retransmitted flight that the path re-fragmented differently after
 the tail of the first transmission was lost must not be blocked by the stale partial message). -/
@@ -293,15 +283,6 @@ theorem converge_partial_fragments_reassemble (C : Crypto) (L : Loc) (e : Ep) (t
   rw [if_neg (by simp only [appendFrag, hrs]; omega)]
   simp only [happ]
   simp [rawMsg, m2, total, encodeHs, List.append_assoc, Nat.add_assoc]
-
-/-- … and a fragment that would leave a gap after the buffer, or lies wholly inside it, changes nothing
-but the reset rule (so a retransmission can still complete the message). -/
-theorem converge_partial_useless_fragment_ignored (C : Crypto) (L : Loc) (e : Ep) (m : HsMsg)
-    (hfrag : m.totalLen ≠ m.body.length)
-    (hu : fragUseful (resetFrag (clearPostHvr e).ctx m) m = false) :
-    acceptMsg C L e m = ok (withCtx (clearPostHvr e) (resetFrag (clearPostHvr e).ctx m)) := by
-  unfold acceptMsg
-  simp [hfrag, hu]
 
 /-! ### liveness and agreement in the closed system, for every fault schedule
 
